@@ -299,8 +299,7 @@ class Gen:
         self.meta = {}
         self.n = 0
         self.dicts = {}
-        self.dist = dict(api_var_calls=0, api_att_calls=0, leaf_calls=0, sweep_calls=0, echar_calls=0, elements=0,
-                         by_class={})
+        self.dist = dict(api_var_calls=0, api_att_calls=0, leaf_calls=0, sweep_calls=0, echar_calls=0, elements=0)
 
     def dictionary(self, d, xi, ii):
         """(codes of the source type) for the pair, from the constants of ALL table entries of the pair"""
@@ -562,7 +561,8 @@ def run(ctx):
         S = ('Schar' if (xi == 10 or ii == 11) else (IC[ii] if d == 'put' else XC[xi]))
         D = ('Schar' if (xi == 10 or ii == 11) else (XC[xi] if d == 'put' else IC[ii]))
         nontrivial = (st_e == NC_ECHAR) or not same_repr(S, D)
-        ctx.count('%s %s fmt=%s NC_%s<->%s %s n=%d' % (m['api'], d, m.get('fmt', '-'), (XT + ['CHAR'])[xi], (IT + ['text'])[ii], m['kind'], len(src)),
+        ctx.count('%s %s fmt=%s NC_%s<->%s %s n=%d values#%s' % (m['api'], d, m.get('fmt', '-'), (XT + ['CHAR'])[xi], (IT + ['text'])[ii], m['kind'], len(src),
+                                                                 hashlib.sha1(m['cmd'].split(' ', 2)[2].encode()).hexdigest()[:10]),
                   nontrivial=nontrivial)
         # -- extracted Coq spec vs python oracle (internal consistency of the check)
         if st_e == NC_ECHAR:
